@@ -219,7 +219,7 @@ func judgeBrackets(r *c10rec) (string, int) {
 
 func c10Scenarios(cfg runCfg) []Scenario {
 	var out []Scenario
-	for i := 0; i < cfg.n(8000, 10); i++ {
+	for i := 0; i < cfg.n(8000, 40); i++ {
 		if !cfg.mine(i) {
 			continue
 		}
